@@ -22,7 +22,7 @@ func mixCase(r *rand.Rand, s string) string {
 func genInterval(r *rand.Rand, locations []string) model.IntervalSpec {
 	var s model.IntervalSpec
 	if r.Intn(3) > 0 {
-		n := 1 + r.Intn(2)
+		n := 1 + r.Intn(3) // in no particular order, overlapping or not
 		s.Times = [][2]int{}
 		for i := 0; i < n; i++ {
 			var a, b int
